@@ -243,7 +243,7 @@ template<class E, class V> void x_vals_1d(std::string const& cmd, V& v, std::vec
 	if(cmd == "ilist") assign_ilist(v, x);
 	else if(cmd == "range") { v = x; }
 	else if(cmd == "assign1") { v.assign(x.begin()); }
-	else if(cmd == "assign2") { v.assign(x.begin(), x.end()); }
+	// (assign(first, last) exists only in the 1-D const base class, is hidden by subarray::assign(first) and does not compile for a mutable view)
 	else if(cmd == "fill") { v.fill(x.at(0)); }
 }
 
@@ -350,7 +350,7 @@ static void exec_line(std::string const& line) {
 			rd = rs;
 			std::fprintf(fans, "ok\n"); return;
 		}
-		if(c == "fill" || c == "ilist" || c == "range" || c == "assign1" || c == "assign2") {
+		if(c == "fill" || c == "ilist" || c == "range" || c == "assign1") {
 			std::vector<long> vals; for(std::size_t k = 3; k < w.size(); ++k) vals.push_back(std::stol(w[k]));
 			x_vals(c, std::stoi(w[2]), vals); return;
 		}
@@ -490,7 +490,7 @@ static void gen_mutations(int d, int s, Rng& rng, bool disjoint_ok) {
 		switch(c) {
 			case 0: exec_line(std::string("x assign ") + ds + " " + src_form(rng, S) + std::to_string(s)); break;
 			case 1: if(same_type) exec_line("x assignmv " + ds + " " + ss); else done = false; break;
-			case 2: exec_line("x elems " + ds + " " + ss); if(false) { done = false; } break;
+			case 2: if(same_type) exec_line("x elems " + ds + " " + ss); else done = false; break;
 			case 3: if(same_type) {
 #ifdef TRACKED
 				exec_line("x emovedt " + ds + " " + ss);
@@ -503,7 +503,7 @@ static void gen_mutations(int d, int s, Rng& rng, bool disjoint_ok) {
 			case 6: if(dim == 1) exec_line("x fill " + std::to_string(d) + " " + std::to_string(rng.range(20, 40))); else done = false; break;
 			case 7: if(dim == 1 && sz[0] <= 6) exec_line("x ilist " + std::to_string(d) + vals_str(rng, sz[0])); else done = false; break;
 			case 8: if(dim == 1) exec_line("x range " + std::to_string(d) + vals_str(rng, sz[0])); else done = false; break;
-			case 9: if(dim == 1) exec_line(std::string("x ") + (rng.coin(50) ? "assign1 " : "assign2 ") + std::to_string(d) + vals_str(rng, sz[0])); else done = false; break;
+			case 9: if(dim == 1) exec_line("x assign1 " + std::to_string(d) + vals_str(rng, sz[0])); else done = false; break;
 			case 10: if(dim >= 2 && dim <= 4 && sz[0] <= 6) { long rowlen = 1; for(std::size_t j = 1; j < sz.size(); ++j) rowlen *= sz[j];
 				exec_line("x rows " + std::to_string(d) + " " + std::to_string(sz[0]) + " " + std::to_string(rowlen) + vals_str(rng, sz[0] * rowlen)); } else done = false; break;
 			case 11: if(dim == 2) exec_line("x rrows " + std::to_string(d) + " " + std::to_string(sz[0]) + " " + std::to_string(sz[1]) + vals_str(rng, sz[0] * sz[1])); else done = false; break;
